@@ -1,6 +1,5 @@
 SPECIFICATION Spec
 CONSTANT Kinds <- McKinds
-CONSTANT Methods <- McMethods
 CONSTANT MaxDepth = 3
 CONSTANT Bypass = FALSE
 INVARIANT RoNeverWrites
